@@ -48,7 +48,7 @@ def case_of_event(e):
 
 def run_value_conformance(c, kind, trace_module, gen_module, gen_cfg, gen_subst, shards):
     """stage B + C shared by C06 (kind=cipher) and C07 (kind=mac); returns (cases, events)"""
-    sd = c.spec_dir("specB")
+    sd = c.spec_dir("specB", vector_files())
     if gen_subst:
         set_constants(sd, gen_cfg, gen_subst)
     cases = generate_cases(c, sd, gen_module, gen_cfg)
